@@ -570,11 +570,13 @@ _G2 = ['c_nx <= conns.len()', 'conns.len() == old(conns).len()',
        C('C01+C12.select.apply_stall_gate.guard_off_pass_writes_only_stall_state', 'forall|j: int| 0 <= j < c_nx ==> (#[trigger] conns[j]).same_except_stall_clear(&old(conns)[j]) && conns[j].conn_timeout_ms == config.conn_timeout_ms'),
        C('C10+C12.select.apply_stall_gate.guard_off_clears_every_flag_and_latch', '''forall|j: int| 0 <= j < c_nx ==>
                 !(#[trigger] conns[j]).stall_gated && !conns[j].silence_pulled && conns[j].stall_latched_since_ms == 0 && conns[j].stall_recovery_since_ms == 0'''),
-       'forall|j: int| c_nx <= j < conns.len() ==> (#[trigger] conns[j]).same_except_timeout(&old(conns)[j]) && conns[j].conn_timeout_ms == config.conn_timeout_ms']
+       'forall|j: int| c_nx <= j < conns.len() ==> (#[trigger] conns[j]).same_except_timeout(&old(conns)[j])',
+       C('C04+C08+C12.select.apply_stall_gate.every_link_carries_the_configured_timeout_before_any_gate_decision', 'forall|j: int| c_nx <= j < conns.len() ==> (#[trigger] conns[j]).conn_timeout_ms == config.conn_timeout_ms')]
 _G3 = ['c_nx <= conns.len()', 'conns.len() == old(conns).len()', 'current_time_ms > 0', 'gate_pre_ok(old(conns)@)',
        C('C12.select.apply_stall_gate.accounting_untouched', '''forall|j: int| 0 <= j < c_nx ==> old(conns)[j].same_acct(&#[trigger] conns[j]) && conns[j].conn_timeout_ms == config.conn_timeout_ms
                 && conns[j].quality_cache == old(conns)[j].quality_cache && conns[j].latch_wf()'''),
-       'forall|j: int| c_nx <= j < conns.len() ==> (#[trigger] conns[j]).same_except_timeout(&old(conns)[j]) && conns[j].conn_timeout_ms == config.conn_timeout_ms']
+       'forall|j: int| c_nx <= j < conns.len() ==> (#[trigger] conns[j]).same_except_timeout(&old(conns)[j])',
+       C('C04+C08+C12.select.apply_stall_gate.every_link_carries_the_configured_timeout_before_any_gate_decision', 'forall|j: int| c_nx <= j < conns.len() ==> (#[trigger] conns[j]).conn_timeout_ms == config.conn_timeout_ms')]
 _G4 = ['c_nx <= conns.len()', 'conns.len() == old(conns).len()', 'conns.len() == pre4.len()',
        'any_healthy == exists_healthy(pre4, current_time_ms)',
        'gate_mid_ok(old(conns)@, pre4, config.conn_timeout_ms)',
@@ -583,6 +585,8 @@ _G4 = ['c_nx <= conns.len()', 'conns.len() == old(conns).len()', 'conns.len() ==
          'forall|j: int| 0 <= j < c_nx ==> (#[trigger] conns[j]).stall_gated == (any_healthy && (pre4[j].spec_latched() || pre4[j].silence_pulled))'),
        'forall|j: int| c_nx <= j < conns.len() ==> #[trigger] conns[j] == pre4[j]']
 GATE_INVS = [_G1, _G2, _G3, _G4]
+# loops addressed by a statement they must contain (robust against added / merged loops)
+GATE_LOOPS = {'conn_timeout_ms = config.conn_timeout_ms': _G1, 'clear_stall_latch()': _G2, 'update_stall_latch(': _G3, 'any_healthy &&': _G4}
 GATE_SPLICES = [
     ('let any_healthy = any_healthy_helper(conns, current_time_ms);', '''let ghost pre4 = conns@;
     proof { assert(gate_mid_ok(old(conns)@, pre4, config.conn_timeout_ms)); }''', 'after'),
@@ -596,7 +600,7 @@ GATE_SPLICES = [
                 assert(!conns[w].stall_gated);
             }
         }''', 'before', 'first'),
-    ('let c = &mut conns[c_ix];\n        c.update_silence_pull', 'let ghost before3 = conns@;\n        let c = &mut conns[c_ix];\n        let ghost c0 = *c;\n        proof { assert(c0.same_except_timeout(&old(conns)[c_ix as int])); assert(old(conns)[c_ix as int].stall_gate_events < 0x7fff_ffff_ffff_ffff); }\n        c.update_silence_pull', 'replace'),
+    ('c.update_silence_pull(current_time_ms, min_in_flight, stale_ceiling_ms);', 'let ghost c0 = *c;\n        proof { assert(c0.same_except_timeout(&old(conns)[c_ix as int])); assert(old(conns)[c_ix as int].stall_gate_events < 0x7fff_ffff_ffff_ffff); }', 'before'),
     ('c.update_stall_latch(current_time_ms, min_in_flight, stale_ceiling_ms);', 'let ghost c1 = *c;', 'before'),
     ('c.update_stall_latch(current_time_ms, min_in_flight, stale_ceiling_ms);', '''let ghost cfin = *c;
         proof {
@@ -606,10 +610,10 @@ GATE_SPLICES = [
             assert(conns[c_ix as int] == cfin);
             assert forall|j: int| 0 <= j < c_nx implies old(conns)[j].same_acct(&#[trigger] conns[j]) && conns[j].conn_timeout_ms == config.conn_timeout_ms
                 && conns[j].quality_cache == old(conns)[j].quality_cache && conns[j].latch_wf() by {
-                if j != c_ix { assert(conns[j] == before3[j]); }
+                if j != c_ix { assert(conns[j] == c_all[j]); }
             }
             assert forall|j: int| c_nx <= j < conns.len() implies (#[trigger] conns[j]).same_except_timeout(&old(conns)[j]) && conns[j].conn_timeout_ms == config.conn_timeout_ms by {
-                assert(conns[j] == before3[j]);
+                assert(conns[j] == c_all[j]);
             }
         }''', 'after'),
     ('@END', '''proof {
